@@ -22,11 +22,11 @@ func init() {
 				"keyed by subnetKey(ip), which masks with the key length of the address's own family. R3: the profile limiter " +
 				"applies only to the configured client subnets, drops exactly when its window counter says so. R4: the window " +
 				"counter's ring is touched only under its mutex. R5: CountResponses counts every estimated response: its loop has " +
-				"no exit that depends on the limiter's verdict.",
+				"no exit that depends on the limiter's verdict. R6: the configuration conversion and the limiter constructor copy every limit into the field of the same meaning and address family.",
 			NotCovered: "THE EXACTNESS OF THE SLIDING WINDOW ITSELF (RequestCounter.Add's comparison with the event 'count' positions earlier, ring size, " +
 				"boundary behaviour) and the expiry timing of the backoff tables: numeric/temporal facts outside static reach; the allowlist's own matching.",
 			Rules: map[string]string{"C09-R1": "middleware gate tables", "C09-R2": "limiter check order, family selection, keying", "C09-R3": "profile limiter table",
-				"C09-R4": "window counter under its lock", "C09-R5": "every estimated response is counted"},
+				"C09-R4": "window counter under its lock", "C09-R5": "every estimated response is counted", "C09-R6": "configuration-to-limiter field map (each family's count, interval and key length under its own name)"},
 		}})
 }
 
@@ -350,6 +350,16 @@ func runC09(c *an.Ctx) {
 			return want + " (the address masked with the key length of its own family)"
 		},
 	})
+
+	// ---- R6 the configured limits reach the limiter under their own name and family
+	c.Floor("C09-R6", 20)
+	checkFieldMap(c, "C09-R6", "cmd.(*rateLimitConfig).toInternal", "dnsserver/ratelimit.BackoffConfig", map[string]string{
+		"ResponseSizeEstimate": ".ResponseSizeEstimate", "Duration": ".BackoffDuration.Duration", "Period": ".BackoffPeriod.Duration", "Count": ".BackoffCount",
+		"IPv4Count": ".IPv4.Count", "IPv4Interval": ".IPv4.Interval.Duration", "IPv4SubnetKeyLen": ".IPv4.SubnetKeyLen",
+		"IPv6Count": ".IPv6.Count", "IPv6Interval": ".IPv6.Interval.Duration", "IPv6SubnetKeyLen": ".IPv6.SubnetKeyLen", "RefuseANY": ".RefuseANY"})
+	checkFieldMap(c, "C09-R6", "dnsserver/ratelimit.NewBackoff", "dnsserver/ratelimit.Backoff", map[string]string{
+		"respSzEst": ".ResponseSizeEstimate", "count": ".Count", "ipv4Count": ".IPv4Count", "ipv4Interval": ".IPv4Interval", "ipv4SubnetKeyLen": ".IPv4SubnetKeyLen",
+		"ipv6Count": ".IPv6Count", "ipv6Interval": ".IPv6Interval", "ipv6SubnetKeyLen": ".IPv6SubnetKeyLen", "refuseANY": ".RefuseANY", "allowlist": ".Allowlist"})
 
 	// ---- R3 profile limiter
 	decide(c, "C09-R3", "agd.(*DefaultRatelimiter).Check", an.DecideCfg{
